@@ -13,6 +13,7 @@ import (
 	"sort"
 	"strconv"
 	"strings"
+	"sync"
 	"testing"
 
 	"github.com/ElrondNetwork/elrond-go/core"
@@ -135,7 +136,7 @@ func verifC15EffWeights(list []verifSHBVal, minChance uint32, rater bool) []uint
 
 func TestVerifC15_ConsensusGroup(t *testing.T) {
 	kit.Run(t, "C15", kit.Budget{Quick: 3000, Thorough: 25000},
-		"1-3 shards + meta, group sizes 1..7 (thorough sometimes to 21), eligible lists of g..g+12 validators with unique keys, chances 0..40 in skewed shapes, minimum chance 1/2/5, sha256 or blake2b, 1-2 configured epochs; four coordinators per case (plain/with rater x LRU cache of capacity 1/2/3/1000 / no-op cache, different own keys) answer 2-8 queries drawn from small pools of randomness (1-48 bytes, some built from '_', '-' and digits) and rounds (boundary biased) so that repeats and near collisions of cache keys occur; every answer is checked for size, distinctness, membership, equality between cached (asked twice) and uncached node, and equality with the naive expanded-list sampler; non-trivial = a query with g>=3, list longer than g and max weight >= 10x min weight on the rater variant; distinct by (weights, randomness, round)",
+		"1-3 shards + meta, group sizes 1..7 (thorough sometimes to 21), eligible lists of g..g+12 validators with unique keys, chances 0..40 in skewed shapes, minimum chance 1/2/5, sha256 or blake2b, 1-2 configured epochs; four coordinators per case (plain/with rater x LRU cache of capacity 1/2/3/1000 / no-op cache, different own keys) plus a fifth with rater whose validators are rebuilt from the registry exported by another node (SerializableValidatorsToValidators, directly or through JSON; it knows the last epoch only) answer 2-8 queries drawn from small pools of randomness (1-48 bytes, some built from '_', '-' and digits) and rounds (boundary biased) so that repeats and near collisions of cache keys occur; every answer is checked for size, distinctness, membership, equality between cached (asked twice) and uncached node, and equality with the naive expanded-list sampler; groups handed out are read again at the end of the case; in 1/4 of the cases 4 goroutines x 6 overlapping calls (rounds 0..40, pool randomness) on one node, shard and epoch, each compared with the sampler; non-trivial = a query with g>=3, list longer than g and max weight >= 10x min weight on the rater variant; distinct by (weights, randomness, round)",
 		func(rt *rapid.T, c *kit.Case) {
 			nbShards := uint32(rapid.IntRange(1, 3).Draw(rt, "nbShards"))
 			maxG := 7
@@ -204,6 +205,8 @@ func TestVerifC15_ConsensusGroup(t *testing.T) {
 				rater  bool
 				cached bool
 				co     *verifSHBCoord
+				// the node holds only the configuration of bootEpoch
+				onlyEpoch bool
 			}
 			nodes := []*node{
 				{name: "plain/cached", cached: true},
@@ -211,7 +214,7 @@ func TestVerifC15_ConsensusGroup(t *testing.T) {
 				{name: "rater/cached", rater: true, cached: true},
 				{name: "rater/uncached", rater: true},
 			}
-			selfKeys := []string{"observer-A", epochs[0].eligible[core.MetachainShardId][0].PK, "observer-C", epochs[0].eligible[0][0].PK}
+			selfKeys := []string{"observer-A", epochs[0].eligible[core.MetachainShardId][0].PK, "observer-C", epochs[0].eligible[0][0].PK, "observer-R"}
 			for i, n := range nodes {
 				cfg := verifSHBCoordCfg{
 					NbShards: nbShards, ShardGroup: gS, MetaGroup: gM, Epoch: e0,
@@ -236,6 +239,32 @@ func TestVerifC15_ConsensusGroup(t *testing.T) {
 				}
 				n.co = co
 			}
+			// a fifth node, bootstrapped from an epoch start: its validators are rebuilt from the registry another node
+			// exports (factory.CreateNodesCoordinator: NodesCoordinatorRegistry -> SerializableValidatorsToValidators);
+			// it knows only the epoch it started in
+			bootEpoch := epochs[len(epochs)-1].epoch
+			{
+				viaJSON := rapid.Bool().Draw(rt, "registryViaJSON")
+				el, wt, err := verifSHBFromRegistry(nodes[3].co, bootEpoch, viaJSON)
+				if err != nil {
+					rt.Fatalf("fixture: registry of epoch %d: %v", bootEpoch, err)
+				}
+				co, err := verifSHBNewCoord(verifSHBCoordCfg{
+					NbShards: nbShards, ShardGroup: gS, MetaGroup: gM, Epoch: bootEpoch,
+					EligibleBuilt: el, WaitingBuilt: wt, SelfPK: selfKeys[4], Hasher: hasher, Chance: chance,
+				})
+				if err != nil {
+					rt.Fatalf("fixture: coordinator from registry: %v", err)
+				}
+				nodes = append(nodes, &node{name: "rater/from-registry", rater: true, co: co, onlyEpoch: true})
+			}
+			// groups handed out earlier, looked at again at the end of the case
+			type held struct {
+				desc  string
+				group []Validator
+				pks   []string
+			}
+			var earlier []held
 
 			// query pools
 			nRand := rapid.IntRange(1, 3).Draw(rt, "nRand")
@@ -280,6 +309,9 @@ func TestVerifC15_ConsensusGroup(t *testing.T) {
 				seed := []byte(strconv.FormatUint(round, 10) + "-" + string(randomness))
 				results := map[string][]string{}
 				for _, n := range nodes {
+					if n.onlyEpoch && ep.epoch != bootEpoch {
+						continue
+					}
 					weights := verifC15EffWeights(list, minChance, n.rater)
 					idx := verifC15Naive(refHash, weights, seed, g)
 					want := make([]string, len(idx))
@@ -309,6 +341,7 @@ func TestVerifC15_ConsensusGroup(t *testing.T) {
 							c.Violation("C15:cache-repeat-differs", "second answer differs from the first (%s)", desc)
 						}
 						results[n.name] = pks
+						earlier = append(earlier, held{desc: desc, group: got, pks: pks})
 					}
 					var maxW, minW uint32 = 0, ^uint32(0)
 					for _, w := range weights {
@@ -327,12 +360,85 @@ func TestVerifC15_ConsensusGroup(t *testing.T) {
 				if strings.Join(results["plain/cached"], "|") != strings.Join(results["plain/uncached"], "|") {
 					c.Violation("C15:cache-differs", "plain nodes disagree: cached %v uncached %v (randomness %q round %d shard %d epoch %d)", verifSHBShortList(results["plain/cached"]), verifSHBShortList(results["plain/uncached"]), randomness, round, shard, ep.epoch)
 				}
+				if r, asked := results["rater/from-registry"]; asked && strings.Join(r, "|") != strings.Join(results["rater/uncached"], "|") {
+					c.Violation("C15:registry-node-differs", "the node bootstrapped from the registry disagrees: %v, node that holds the original configuration: %v (randomness %q round %d shard %d epoch %d)", verifSHBShortList(r), verifSHBShortList(results["rater/uncached"]), randomness, round, shard, ep.epoch)
+				}
 				if strings.Join(results["rater/cached"], "|") != strings.Join(results["rater/uncached"], "|") {
 					c.Violation("C15:cache-differs", "rater nodes disagree: cached %v uncached %v (randomness %q round %d shard %d epoch %d)", verifSHBShortList(results["rater/cached"]), verifSHBShortList(results["rater/uncached"]), randomness, round, shard, ep.epoch)
 				}
 				c.Class("query-ok")
 				if nEpochs == 2 {
 					c.Class("query-two-epochs")
+				}
+			}
+
+			// overlapping calls: header interceptors verify several headers of one shard and epoch at the same time, so
+			// ComputeConsensusGroup runs concurrently on one selector; every caller must get the group of its own inputs
+			if rapid.IntRange(0, 3).Draw(rt, "concurrent") == 0 {
+				shard := shards[rapid.IntRange(0, len(shards)-1).Draw(rt, "ccShard")]
+				ep := epochs[len(epochs)-1]
+				list := ep.eligible[shard]
+				g := verifC15GroupSize(shard, gS, gM)
+				n := nodes[rapid.IntRange(0, len(nodes)-1).Draw(rt, "ccNode")]
+				const workers, perWorker = 4, 6
+				type call struct {
+					randomness []byte
+					round      uint64
+					got        []Validator
+					err        error
+					panicked   interface{}
+				}
+				calls := make([][]*call, workers)
+				for w := range calls {
+					for k := 0; k < perWorker; k++ {
+						calls[w] = append(calls[w], &call{
+							randomness: rands[rapid.IntRange(0, len(rands)-1).Draw(rt, "ccRand")],
+							round:      rapid.Uint64Range(0, 40).Draw(rt, "ccRound"),
+						})
+					}
+				}
+				var start, done sync.WaitGroup
+				start.Add(1)
+				for w := range calls {
+					done.Add(1)
+					go func(mine []*call) {
+						defer done.Done()
+						start.Wait()
+						for _, cl := range mine {
+							func() {
+								defer func() { cl.panicked = recover() }()
+								cl.got, cl.err = n.co.NC().ComputeConsensusGroup(cl.randomness, cl.round, shard, ep.epoch)
+							}()
+						}
+					}(calls[w])
+				}
+				start.Done()
+				done.Wait()
+				weights := verifC15EffWeights(list, minChance, n.rater)
+				for w := range calls {
+					for _, cl := range calls[w] {
+						desc := fmt.Sprintf("node %s, %d goroutines x %d calls: randomness %q round %d shard %d epoch %d, g=%d, eligible %d, weights %v", n.name, workers, perWorker, cl.randomness, cl.round, shard, ep.epoch, g, len(list), weights)
+						if cl.panicked != nil {
+							c.Violation("C15:panic", "panic %v (%s)", cl.panicked, desc)
+						}
+						if cl.err != nil {
+							c.Violation("C15:error", "unexpected error %v (%s)", cl.err, desc)
+						}
+						idx := verifC15Naive(refHash, weights, []byte(strconv.FormatUint(cl.round, 10)+"-"+string(cl.randomness)), g)
+						pks := verifSHBPubKeys(cl.got)
+						verifC15CheckGroup(c, pks, list, g, desc)
+						if fmt.Sprint(verifC15Indexes(pks, list)) != fmt.Sprint(idx) {
+							c.Violation("C15:concurrent-reference-differs", "group computed while other calls were running differs from the naive sampler: got indexes %v want %v (%s)", verifC15Indexes(pks, list), idx, desc)
+						}
+					}
+				}
+				c.Class("concurrent-calls")
+			}
+
+			// what earlier callers were given must not have changed under their hands
+			for _, h := range earlier {
+				if now := verifSHBPubKeys(h.group); strings.Join(now, "|") != strings.Join(h.pks, "|") {
+					c.Violation("C15:earlier-group-changed", "a group handed out earlier reads %v now, was %v (%s)", verifSHBShortList(now), verifSHBShortList(h.pks), h.desc)
 				}
 			}
 		})
@@ -450,7 +556,7 @@ func TestVerifC15_AfterEpochChange(t *testing.T) {
 	kit.Run(t, "C15", kit.Budget{Quick: 1200, Thorough: 12000},
 		"the multi-epoch fixture of C16 (1-3 shards, min nodes 1..4, group <= min nodes, with/without rater, validator info derived from the current configuration with leaving/jailed/new/low-rated entries) drives two nodes through 1-3 epoch changes; every epoch change consists of 1-3 competing epoch start blocks of the same epoch (independently drawn validator info from the same current configuration; randomness equal to or different from the previous block's), each prepared with EpochStartPrepare on node A (LRU cache) and - all of them or only the last - on node B (no cache), the last one followed by EpochStartAction; after every block (after the last one with probability 1/2 a third node is restarted from the state node A saved, via LoadState) 1-3 fresh queries on the prepared or a still stored older epoch plus most of the up to 4 most recently remembered queries again (same randomness, round, shard, epoch - so a query answered under an earlier block of the same epoch is repeated under the later one); weights of the reference come from the ratings in the validator info of the block that is in force; non-trivial = query on an epoch produced by an epoch change with rater, list longer than g and two different weights; distinct by (list, weights, randomness, round)",
 		func(rt *rapid.T, c *kit.Case) {
-			keys := &verifSHBKeyGen{long: rapid.IntRange(0, 3).Draw(rt, "longKeys") == 0}
+			keys := verifSHBDrawKeyGen(rt)
 			s := verifSHBGenSetup(rt, keys)
 			_, refHash := verifSHBHasher(s.hasherKind)
 			cacheSize := rapid.SampledFrom([]int{1, 2, 1000, 1000}).Draw(rt, "lruSize")
@@ -704,7 +810,7 @@ func TestVerifC15_AfterEpochChange(t *testing.T) {
 // The selector alone, at much higher volume than the coordinator test allows.
 func TestVerifC15_Selector(t *testing.T) {
 	kit.Run(t, "C15", kit.Budget{Quick: 60000, Thorough: 1000000},
-		"selectorExpandedList.Select over weight vectors of 1..20 validators (thorough sometimes 64), weights 1..40 in skewed shapes, sample size 1..n, seeds of 1-48 bytes: index sequence must have the requested length, be duplicate free, in range, and equal the naive sampler; non-trivial = sample size >= 3, n > sample size, max weight >= 10x min weight; distinct by (weights, seed, size)",
+		"selectorExpandedList.Select over weight vectors of 1..20 validators (thorough sometimes 64), weights 1..40 in skewed shapes, sample size 1..n, seeds of 1-48 bytes: index sequence must have the requested length, be duplicate free, in range, and equal the naive sampler, and must still do so after a later Select with another seed and size on the same selector; non-trivial = sample size >= 3, n > sample size, max weight >= 10x min weight; distinct by (weights, seed, size)",
 		func(rt *rapid.T, c *kit.Case) {
 			hasher, refHash := verifSHBHasher(rapid.IntRange(0, 1).Draw(rt, "hasher"))
 			maxN := 20
@@ -756,7 +862,20 @@ func TestVerifC15_Selector(t *testing.T) {
 					c.Violation("C15:selector-reference-differs", "got %v want %v (weights %v seed %q g %d)", got, want, weights, seed, g)
 				}
 			}
-			// a second call on the same selector (it is shared by all rounds of an epoch) must agree
+			// the selector is shared by all rounds of an epoch: a later call with another seed and size must not change
+			// the result an earlier caller still holds
+			seed2 := verifC15Randomness(rt, "seed2")
+			g2 := rapid.IntRange(1, n).Draw(rt, "g2")
+			var got2 []uint32
+			c.NoPanic("C15:selector-panic", func() { got2, err = sel.Select(seed2, uint32(g2)) })
+			want2 := verifC15Naive(refHash, weights, seed2, g2)
+			if err != nil || fmt.Sprint(verifC15Ints(got2)) != fmt.Sprint(want2) {
+				c.Violation("C15:selector-reference-differs", "second selection on the same selector: got %v (err %v) want %v (weights %v seed %q g %d)", got2, err, want2, weights, seed2, g2)
+			}
+			if fmt.Sprint(verifC15Ints(got)) != fmt.Sprint(want) {
+				c.Violation("C15:selector-earlier-result-changed", "the result of Select(seed %q, %d) was %v and reads %v after Select(seed %q, %d) on the same selector (weights %v)", seed, g, want, got, seed2, g2, weights)
+			}
+			// a second call on the same selector with the same arguments must agree
 			var again []uint32
 			c.NoPanic("C15:selector-panic", func() { again, err = sel.Select(seed, uint32(g)) })
 			if err != nil || fmt.Sprint(again) != fmt.Sprint(got) {
@@ -776,6 +895,14 @@ func TestVerifC15_Selector(t *testing.T) {
 				c.Sample("weights=%v seed=%q g=%d -> %v", weights, seed, g, got)
 			}
 		})
+}
+
+func verifC15Ints(l []uint32) []int {
+	res := make([]int, len(l))
+	for i, v := range l {
+		res[i] = int(v)
+	}
+	return res
 }
 
 // regression / fixed examples (run in every tier)
